@@ -30,13 +30,15 @@ const MinPackages = 38
 
 // Prog is the loaded, type-checked program with its SSA form.
 type Prog struct {
-	Repo   string
-	CfgEnv []string // GOOS= / GOARCH= of the configuration analysed (empty: host)
-	Fset   *token.FileSet
-	Pkgs   []*packages.Package          // scope packages (repo only)
-	ByPth  map[string]*packages.Package // import path -> package (scope only)
-	All    map[string]*packages.Package // every package incl. dependencies
-	SSA    *ssa.Program
+	AnchorLog map[string]string // every named anchor resolved in this run -> its signature / position (see AnchorHints)
+	Renamed   []string          // anchors resolved through their recorded signature because the name is gone
+	Repo      string
+	CfgEnv    []string // GOOS= / GOARCH= of the configuration analysed (empty: host)
+	Fset      *token.FileSet
+	Pkgs      []*packages.Package          // scope packages (repo only)
+	ByPth     map[string]*packages.Package // import path -> package (scope only)
+	All       map[string]*packages.Package // every package incl. dependencies
+	SSA       *ssa.Program
 
 	cgOnce sync.Once
 	cg     *callgraph.Graph
@@ -210,6 +212,79 @@ func (p *Prog) SSAPkg(rel string) *ssa.Package {
 // Func resolves "Name" (package-level function) or "T.Name" (method on T or
 // *T) in the package with module-relative path rel.
 func (p *Prog) Func(rel, name string) *ssa.Function {
+	f := p.funcByName(rel, name)
+	key := "F|" + rel + "|" + name
+	if f != nil {
+		p.logAnchor(key, funcSig(f))
+		return f
+	}
+	// the name is gone: an unexported function may have been renamed. Resolve it through the
+	// signature recorded for this anchor, if exactly one function of the package that is not
+	// itself a named anchor has it.
+	hint, ok := AnchorHints[key]
+	if !ok {
+		return nil
+	}
+	sp := p.SSAPkg(rel)
+	if sp == nil {
+		return nil
+	}
+	var cands []*ssa.Function
+	for _, fn := range p.SrcFuncs() {
+		if fn.Pkg != sp || fn.Parent() != nil || fn.Synthetic != "" || token.IsExported(fn.Name()) {
+			continue
+		}
+		if funcSig(fn) != hint {
+			continue
+		}
+		if _, named := AnchorHints["F|"+rel+"|"+fnAnchorName(fn)]; named {
+			continue
+		}
+		cands = append(cands, fn)
+	}
+	if len(cands) == 1 {
+		p.Renamed = append(p.Renamed, name+" -> "+fnAnchorName(cands[0]))
+		return cands[0]
+	}
+	return nil
+}
+
+// fnAnchorName renders a function the way anchors name it ("f" or "T.m").
+func fnAnchorName(fn *ssa.Function) string {
+	if fn.Signature.Recv() != nil {
+		if n, ok := Deref(fn.Signature.Recv().Type()).(*types.Named); ok {
+			return n.Obj().Name() + "." + fn.Name()
+		}
+	}
+	return fn.Name()
+}
+
+// funcSig: receiver type and signature, without names.
+func funcSig(fn *ssa.Function) string {
+	recv := ""
+	if fn.Signature.Recv() != nil {
+		recv = types.TypeString(fn.Signature.Recv().Type(), nil)
+	}
+	sig := types.NewSignatureType(nil, nil, nil, fn.Signature.Params(), fn.Signature.Results(), fn.Signature.Variadic())
+	var ps []string
+	for i := 0; i < sig.Params().Len(); i++ {
+		ps = append(ps, types.TypeString(sig.Params().At(i).Type(), nil))
+	}
+	var rs []string
+	for i := 0; i < sig.Results().Len(); i++ {
+		rs = append(rs, types.TypeString(sig.Results().At(i).Type(), nil))
+	}
+	return recv + "|(" + strings.Join(ps, ",") + ")(" + strings.Join(rs, ",") + ")"
+}
+
+func (p *Prog) logAnchor(key, val string) {
+	if p.AnchorLog == nil {
+		p.AnchorLog = map[string]string{}
+	}
+	p.AnchorLog[key] = val
+}
+
+func (p *Prog) funcByName(rel, name string) *ssa.Function {
 	sp := p.SSAPkg(rel)
 	if sp == nil {
 		return nil
@@ -267,9 +342,26 @@ func (p *Prog) Field(rel, tn, fn string) *types.Var {
 	if !ok {
 		return nil
 	}
+	key := "V|" + rel + "|" + tn + "|" + fn
 	for i := 0; i < st.NumFields(); i++ {
 		if st.Field(i).Name() == fn {
+			p.logAnchor(key, fmt.Sprintf("%d|%s", i, types.TypeString(st.Field(i).Type(), nil)))
 			return st.Field(i)
+		}
+	}
+	// renamed unexported field: same position, same type, and the name now at that position is not an anchor of its own
+	if hint, ok := AnchorHints[key]; ok && !token.IsExported(fn) {
+		var idx int
+		var typ string
+		if i := strings.IndexByte(hint, '|'); i > 0 {
+			fmt.Sscanf(hint[:i], "%d", &idx)
+			typ = hint[i+1:]
+			if idx < st.NumFields() && types.TypeString(st.Field(idx).Type(), nil) == typ {
+				if _, named := AnchorHints["V|"+rel+"|"+tn+"|"+st.Field(idx).Name()]; !named {
+					p.Renamed = append(p.Renamed, tn+"."+fn+" -> "+tn+"."+st.Field(idx).Name())
+					return st.Field(idx)
+				}
+			}
 		}
 	}
 	return nil
